@@ -177,6 +177,120 @@ pub fn run_cli_inj(args: &[&str], cwd: &Path, envs: &[(&str, String)], root: &Pa
     RunOut { code: o.status.code(), signal: o.status.signal(), stdout: String::from_utf8_lossy(&o.stdout).into_owned(), stderr: String::from_utf8_lossy(&o.stderr).into_owned() }
 }
 
+
+// ═════════════════════════ bisync under I/O errors (used by C02 and C06) ═════════════════════════
+
+/// For every classic scenario and EVERY k: the k-th file-system-mutating libc call of `copia bisync` fails with
+/// `errno` instead of running. `mode` selects which property's clauses are reported:
+///  C06 — a run that COMPLETES (exit 0, or 1 with conflicts preserved) has both sides equal, the recorded state equal
+///        to that tree, and an immediate second run plans nothing;
+///  C02 — whatever the exit status, no version present before the run is lost (in the sense of `c02_lost`), also
+///        after the run is repeated until it completes.
+pub fn bisync_io_faults(mode: &str, seed: u64, thorough: bool) -> (u64, Vec<Violation>) {
+    use rayon::prelude::*;
+    let scs = scenarios(seed, thorough);
+    let errnos: Vec<i32> = if thorough { vec![28, 5, 13] } else { vec![13] };
+    let base = Scratch::new("e3iof");
+    let jobs: Vec<(usize, &Scn, i32)> = scs.iter().enumerate().flat_map(|(i, s)| errnos.iter().map(move |e| (i, s, *e))).filter(|(_, s, _)| s.name != "S10-propagate-300KiB").collect();
+    let res: Vec<(u64, Vec<Violation>)> = jobs
+        .par_iter()
+        .map(|&(i, s, errno)| {
+            let slot = Slot { root: base.path(&format!("w{i}-{errno}")) };
+            let _ = std::fs::create_dir_all(&slot.root);
+            slot.prepare(s);
+            let logp = slot.root.join("log");
+            let pre = slot.state();
+            slot.restore();
+            let r0 = slot.bisync(Some(&logp), None);
+            let n = read_log(&logp).len() as u64;
+            if !(r0.code == Some(0) || r0.code == Some(1)) || n == 0 {
+                // no baseline on this tree: the fault-free behaviour is judged by the main exploration, not here
+                return (1, Vec::new());
+            }
+            let mut runs = 1u64;
+            let mut out = Vec::new();
+            for k in 1..=n {
+                slot.restore();
+                let envs = [("HOME", slot.home().to_string_lossy().into_owned()), ("VSHIM_FAIL_AT", k.to_string()), ("VSHIM_FAIL_ERRNO", errno.to_string())];
+                let r = run_cli_inj(&["bisync", "A", "B"], &slot.root, &envs, &slot.root, Some(&logp), Some(u64::MAX));
+                runs += 1;
+                let klog = read_log(&logp);
+                let Some(failed) = std::fs::read_to_string(&logp).ok().and_then(|t| t.lines().find(|l| l.ends_with("FAILED")).map(|l| l.split('\t').skip(2).take(2).collect::<Vec<_>>().join(" "))) else { continue };
+                let _ = klog;
+                let st = slot.state();
+                let completed = r.code == Some(0) || (r.code == Some(1) && r.stderr.contains("had conflicts"));
+                let det = json!({"io_fault": {"scenario": s.name, "k": k, "errno": errno}});
+                let what = format!("scenario {} with libc call #{k} ({}) failing with errno {errno}, exit {:?}", s.name, failed.rsplit('/').next().unwrap_or(""), r.code);
+                if r.signal.is_some() {
+                    out.push(Violation::new("crash_on_io_error", format!("{what}: killed by signal {:?}", r.signal), det.clone()).with("cause", json!("io_error")));
+                    continue;
+                }
+                if mode == "C06" && completed {
+                    let arch_ok = archive_main(&st.2).and_then(|(_, b)| serde_json::from_slice::<Value>(b).ok()).and_then(|v| v["entries"].as_object().cloned()).is_some_and(|ent| {
+                        let tree = non_staging(&st.0);
+                        ent.len() == tree.len() && ent.iter().all(|(p, fp)| tree.get(p).is_some_and(|b| fp["blake3"].as_array().is_some_and(|a| a.iter().filter_map(|x| x.as_u64().map(|n| n as u8)).collect::<Vec<u8>>()[..] == blake3::hash(b).as_bytes()[..])))
+                    });
+                    if non_staging(&st.0) != non_staging(&st.1) {
+                        out.push(Violation::new("io_error_swallowed", format!("{what}: the run reports completion but the two sides differ (A {:?} / B {:?})", non_staging(&st.0).keys().collect::<Vec<_>>(), non_staging(&st.1).keys().collect::<Vec<_>>()), det.clone()).with("cause", json!("io_error")));
+                    } else if !arch_ok {
+                        out.push(Violation::new("io_error_swallowed", format!("{what}: the run reports completion but the recorded common state is not exactly the tree"), det.clone()).with("cause", json!("io_error")));
+                    } else {
+                        let r2 = slot.bisync(None, None);
+                        runs += 1;
+                        if r2.code != Some(0) || slot.state().0 != st.0 || slot.state().1 != st.1 {
+                            out.push(Violation::new("io_error_swallowed", format!("{what}: a second run right after the completed one exits {:?} or changes a tree", r2.code), det.clone()).with("cause", json!("io_error")));
+                        }
+                    }
+                }
+                if mode == "C02" {
+                    if let Some(m) = c02_lost(&pre, &st) {
+                        // a version may legitimately be only on its own side still when the run FAILED: require it somewhere
+                        let anywhere = |bytes: &Vec<u8>| st.0.values().chain(st.1.values()).any(|b| b == bytes);
+                        let really_lost = pre.0.iter().chain(pre.1.iter()).filter(|(p, _)| !is_staging(p)).any(|(_, b)| !anywhere(b));
+                        if completed || really_lost {
+                            // exclude the superseded common base (c02_lost already does for completed runs)
+                            if completed {
+                                out.push(Violation::new("version_lost", format!("{what}: {m}"), det.clone()).with("cause", json!("io_error")));
+                            } else if really_lost {
+                                let base_hashes: Vec<Vec<u8>> = archive_main(&pre.2).and_then(|(_, b)| serde_json::from_slice::<Value>(b).ok()).and_then(|v| v["entries"].as_object().cloned()).map(|m| m.values().map(|fp| fp["blake3"].as_array().map(|a| a.iter().filter_map(|x| x.as_u64().map(|n| n as u8)).collect()).unwrap_or_default()).collect()).unwrap_or_default();
+                                let lost_nonbase = pre.0.iter().chain(pre.1.iter()).filter(|(p, _)| !is_staging(p)).any(|(_, b)| !anywhere(b) && !base_hashes.iter().any(|h| h[..] == blake3::hash(b).as_bytes()[..]));
+                                if lost_nonbase {
+                                    out.push(Violation::new("version_lost", format!("{what}: a version that was not the recorded common base exists on neither side after the FAILED run"), det.clone()).with("cause", json!("io_error")));
+                                }
+                            }
+                        }
+                    }
+                    // repeat until it completes: still nothing lost
+                    if !completed {
+                        let mut ok = false;
+                        for _ in 0..3 {
+                            let rr = slot.bisync(None, None);
+                            runs += 1;
+                            if rr.code == Some(0) || (rr.code == Some(1) && rr.stderr.contains("had conflicts")) {
+                                ok = true;
+                                break;
+                            }
+                        }
+                        if ok {
+                            if let Some(m) = c02_lost(&pre, &slot.state()) {
+                                out.push(Violation::new("version_lost", format!("{what}, then repeated until it completed: {m}"), det.clone()).with("cause", json!("io_error")));
+                            }
+                        }
+                    }
+                }
+                if out.len() >= 3 {
+                    break;
+                }
+            }
+            (runs, out)
+        })
+        .collect();
+    let runs = res.iter().map(|r| r.0).sum();
+    let mut vs: Vec<Violation> = res.into_iter().flat_map(|r| r.1).collect();
+    vs.truncate(6);
+    (runs, vs)
+}
+
 // ═════════════════════════ C08 ═════════════════════════
 
 struct Scn {
